@@ -1,0 +1,9 @@
+//go:build verif
+// +build verif
+
+package shmipc
+
+// verifTrace is the trace hook of the verification build (go build -tags verif). It is called after a state change of
+// the hot-restart / session-rebuild machinery while the lock that protects that state is still held, and before the
+// step's first externally visible effect. The verification harness replaces it; by default it does nothing.
+var verifTrace = func(ev string, obj interface{}, s *Session, a, b int64) {}
